@@ -76,6 +76,17 @@ public:
 
   unsigned int size() const { return _master_map.size(); }
 
+#ifdef MASA_VERIF
+  // verification hook: return this registry to its initial, empty state
+  void verif_reset()
+  {
+    for(typename std::map<std::string,manufactured_solution<Scalar>*>::iterator iter = this->_master_map.begin(); iter != this->_master_map.end(); iter++)
+      delete iter->second;
+    _master_map.clear();
+    _master_pointer = NULL;
+  }
+#endif
+
 private:
   //
   //  this function checks the user has an active mms
@@ -190,6 +201,16 @@ template <>
 MasterMS<long double>& masa_master() { return masa_master_longdouble; }
 
 }
+
+#ifdef MASA_VERIF
+// verification hook (not part of the public API): empty both registries
+namespace MASA { void masa_verif_reset(); }
+void MASA::masa_verif_reset()
+{
+  masa_master_double.verif_reset();
+  masa_master_longdouble.verif_reset();
+}
+#endif
 
 template <typename Scalar>
 void MasterMS<Scalar>::verify_pointer_sanity() const
